@@ -279,7 +279,7 @@ Qed.
 
 (* D30 at instruction level: the writer packs the literal index unsigned, the
    machine reads it signed *)
-Time Lemma pushstr_index_refuted :
+Lemma pushstr_index_refuted :
   exists i bs, encode_instr i = Some bs /\
                decode bs = DOk (IPushStr (-32768)) 3 /\ i = IPushStr 32768.
 Proof. exists (IPushStr 32768), [43; 128; 0]. repeat split. Qed.
